@@ -156,6 +156,11 @@ def check_quality_fn(ctx, F, fn):
 
 
 def run(ctx):
+    _run_main(ctx)
+    badlist_refreshed_everywhere(ctx)
+
+
+def _run_main(ctx):
     F = ctx.facts
     ctx.explanation = ("Password-setting sinks are dominated by a successful check_password_quality; both quality functions bound the grapheme length by the "
                        "resolved account policy (minimum never below pw_min_length(), maximum never above pw_max_length()) and look the lower-cased password "
@@ -214,3 +219,16 @@ def run(ctx):
     # ---- K4 quality functions -------------------------------------------------------------------------
     for fn in (q_cu, q_pw):
         check_quality_fn(ctx, F, fn)
+
+
+# ---------------------------------------------------------------------------------------------------------------------
+# Both quality functions consult the *in-memory* badlist (pw_badlist() reads the cached system config). The badlist a
+# password is checked against is therefore only the stored one if every write path — replication included — refreshes the
+# system config. (added after seeded change C31: incremental replication stopped reloading the system config, so a password
+# badlisted on one server was accepted on its replication partner)
+
+def badlist_refreshed_everywhere(ctx):
+    from .lib.x_reload import check_setting
+    check_setting(ctx, "K2-badlist-cache-refreshed", "SYSTEM_CONFIG", "reload_system_config",
+                  "the in-memory password badlist stays stale on this server and a badlisted password can be set here",
+                  ("PVUUID_SYSTEM_CONFIG", "UUID_SYSTEM_CONFIG"))
